@@ -350,9 +350,23 @@ func c02CaptureMatrix(res *Result) {
 		{"expression-method-argument", []string{`user("read")`}, nil, []string{`check if resource($user), $user.starts_with(` + W + `)`}, []string{`resource(` + W + `)`}, `allow if user("read")`},
 		{"set-element-in-expression", []string{`user("read")`}, nil, []string{`check if resource($user), [` + W + `, "read"].contains($user)`}, []string{`resource(` + W + `)`}, `allow if user("read")`},
 		{"set-element-in-fact", []string{`member([` + W + `])`}, nil, nil, nil, `allow if member($s), $s.contains(` + W + `)`},
+		{"later-set-element-in-expression", []string{`user("read")`}, nil, []string{`check if resource($user), ["read", "write", ` + W + `].contains($user)`}, []string{`resource(` + W + `)`}, `allow if user("read")`},
+		{"later-set-element-in-fact", []string{`member(["read", ` + W + `])`}, nil, nil, nil, `allow if member($s), $s.contains(` + W + `)`},
 		{"rule-expression-constant", nil, []string{`right($user) <- resource($user), $user == ` + W}, nil, []string{`resource(` + W + `)`}, `allow if right(` + W + `)`},
 	}
+	var all []cse
 	for _, c := range cases {
+		all = append(all, c)
+		if len(c.checks) > 0 && len(c.rules) == 0 {
+			// the same check carried by a LATER block (the authority keeps the facts): the
+			// dangling index is then in block 1, and the capturing block is block 2
+			c2 := c
+			c2.name = c.name + "@block1"
+			all = append(all, c2)
+		}
+	}
+	for _, c := range all {
+		inBlock1 := strings.HasSuffix(c.name, "@block1")
 		base := datalog.SymbolTable{"corp_admin"}
 		b := biscuit.NewBuilder(priv, biscuit.WithSymbols(&base), biscuit.WithRNG(detReader{NewRNG(11)}))
 		ok := true
@@ -364,13 +378,26 @@ func c02CaptureMatrix(res *Result) {
 			r, err := parser.FromStringRule(t)
 			ok = ok && err == nil && b.AddAuthorityRule(r) == nil
 		}
-		for _, t := range c.checks {
-			ch, err := parser.FromStringCheck(t)
-			ok = ok && err == nil && b.AddAuthorityCheck(ch) == nil
+		if !inBlock1 {
+			for _, t := range c.checks {
+				ch, err := parser.FromStringCheck(t)
+				ok = ok && err == nil && b.AddAuthorityCheck(ch) == nil
+			}
 		}
 		t0, err := b.Build()
 		if !ok || err != nil {
 			fatal("capture matrix %s: cannot build the authority block: %v", c.name, err)
+		}
+		if inBlock1 {
+			bb := t0.CreateBlock()
+			for _, t := range c.checks {
+				ch, err := parser.FromStringCheck(t)
+				ok = ok && err == nil && bb.AddCheck(ch) == nil
+			}
+			t0, err = t0.Append(detReader{NewRNG(12)}, bb.Build())
+			if !ok || err != nil {
+				fatal("capture matrix %s: cannot build block 1: %v", c.name, err)
+			}
 		}
 		bs, _ := t0.Serialize()
 		res.Count("capture-matrix:"+c.name, true)
